@@ -22,6 +22,7 @@ pub mod c18;
 pub mod c19;
 pub mod c20;
 pub mod diff;
+pub mod fmtctx;
 pub mod pairs;
 pub mod util;
 pub mod walk;
